@@ -1,5 +1,6 @@
 """C11 — dates and times: calendar-valid only, one meaning everywhere, round-trip stable."""
 from .common import Report
+from . import emit
 from . import accept
 from . import numdate
 from .fieldtab import FieldTab
@@ -23,4 +24,5 @@ def run(F, tier):
     rep.sample({"pivot_in_parse_date_yymmdd": r.get("pivot")})
     accept.u6(rep, F, "date")
     accept.u7(rep, F, "date")
+    emit.e1(rep, F, "date")
     return rep
